@@ -34,10 +34,12 @@ EXTENDS Integers, Sequences, FiniteSets, TLC, Json
 CONSTANTS N,                          \* ticks per revolution
           Lons, Theta0s,              \* site longitudes, Earth angle at the start (ticks)
           StartSecs, Dts, MaxSteps,
+          Plans,                      \* step plans: sequences of step sizes (s); <<>> = "MaxSteps
+                                      \* steps of the configured physics step dt"
           InvertStartBySecTruncation  \* FALSE = as designed
 
-VARIABLES pc, lon, theta0, startSec, dt, invErr, clockSec, k, siteEpoch, inertial, vel
-vars == <<pc, lon, theta0, startSec, dt, invErr, clockSec, k, siteEpoch, inertial, vel>>
+VARIABLES pc, lon, theta0, startSec, dt, plan, invErr, clockSec, k, siteEpoch, inertial, vel
+vars == <<pc, lon, theta0, startSec, dt, plan, invErr, clockSec, k, siteEpoch, inertial, vel>>
 
 Theta(t)      == (theta0 + t) % N                \* Earth angle at scenario second t
 Inertial(e)   == (lon + theta0 + e) % N          \* ecef2eci(x_ecef, start + e), position angle
@@ -47,13 +49,14 @@ ReportedLon   == (inertial - Theta(clockSec)) % N
 ReportedVelLon == (vel - Theta(clockSec)) % N
 InvErrs == IF InvertStartBySecTruncation /\ startSec # 0 THEN {0, -1} ELSE {0}
 
-Init == /\ pc = "start" /\ lon = 0 /\ theta0 = 0 /\ startSec = 0 /\ dt = 0 /\ invErr = 0
+Init == /\ pc = "start" /\ lon = 0 /\ theta0 = 0 /\ startSec = 0 /\ dt = 0 /\ plan = <<>> /\ invErr = 0
         /\ clockSec = 0 /\ k = 0 /\ siteEpoch = 0 /\ inertial = 0 /\ vel = Quarter
 
 PoseSite  == /\ pc = "start" /\ \E g \in Lons, t \in Theta0s : lon' = g /\ theta0' = t
              /\ pc' = "site"
-             /\ UNCHANGED <<startSec, dt, invErr, clockSec, k, siteEpoch, inertial, vel>>
-PoseStart == /\ pc = "site" /\ \E s \in StartSecs, st \in Dts : startSec' = s /\ dt' = st
+             /\ UNCHANGED <<startSec, dt, plan, invErr, clockSec, k, siteEpoch, inertial, vel>>
+PoseStart == /\ pc = "site"
+             /\ \E s \in StartSecs, st \in Dts, p \in Plans : startSec' = s /\ dt' = st /\ plan' = p
              /\ pc' = "posed"
              /\ UNCHANGED <<lon, theta0, invErr, clockSec, k, siteEpoch, inertial, vel>>
 \* ScenarioBuilder: the dynamics recovers the start datetime from the start Julian date; the
@@ -61,17 +64,22 @@ PoseStart == /\ pc = "site" /\ \E s \in StartSecs, st \in Dts : startSec' = s /\
 Build == /\ pc = "posed" /\ \E e \in InvErrs : invErr' = e
          /\ siteEpoch' = 0 /\ inertial' = Inertial(0) /\ vel' = (Inertial(0) + Quarter) % N
          /\ pc' = "run"
-         /\ UNCHANGED <<lon, theta0, startSec, dt, clockSec, k>>
-\* one physics step: the clock ticks; Terrestrial.propagate evaluates the Earth-fixed position
-\* at its own idea of "start + final_time"
-Step == /\ pc = "run" /\ k < MaxSteps
-        /\ clockSec' = clockSec + dt /\ k' = k + 1
-        /\ siteEpoch' = invErr + clockSec + dt
-        /\ inertial' = Inertial(invErr + clockSec + dt)
-        /\ vel' = (Inertial(invErr + clockSec + dt) + Quarter) % N
-        /\ UNCHANGED <<pc, lon, theta0, startSec, dt, invErr>>
+         /\ UNCHANGED <<lon, theta0, startSec, dt, plan, clockSec, k>>
+\* one propagation of d seconds: the clock advances; Terrestrial.propagate evaluates the
+\* Earth-fixed position at its own idea of "start + final_time"
+Advance(d) == /\ d > 0
+              /\ clockSec' = clockSec + d /\ k' = k + 1
+              /\ siteEpoch' = invErr + clockSec + d
+              /\ inertial' = Inertial(invErr + clockSec + d)
+              /\ vel' = (Inertial(invErr + clockSec + d) + Quarter) % N
+              /\ UNCHANGED <<pc, lon, theta0, startSec, dt, plan, invErr>>
+\* a scenario: every step is the configured physics step
+Step     == pc = "run" /\ plan = <<>> /\ k < MaxSteps /\ Advance(dt)
+\* the agent stepped directly with a plan of step sizes: a long first step (an elapsed time of
+\* hours to days), small steps late in a run, steps of whole days, mixtures
+PlanStep == pc = "run" /\ plan # <<>> /\ k < Len(plan) /\ Advance(plan[k + 1])
 
-Next == PoseSite \/ PoseStart \/ Build \/ Step
+Next == PoseSite \/ PoseStart \/ Build \/ Step \/ PlanStep
 Spec == Init /\ [][Next]_vars
 
 \* C11: the epoch of the site's inertial state is the clock
@@ -83,12 +91,24 @@ SiteFixed           == pc = "run" => ReportedLon = lon
 VelIsRotation       == pc = "run" => ReportedVelLon = (lon + Quarter) % N
 
 \* configurations handed to the driver (which crosses them with real dates and sites)
-Emit == (pc = "run" /\ k = MaxSteps) =>
-   PrintT("SITE " \o ToJson([startSec |-> startSec, dt |-> dt, steps |-> k, lon |-> lon, theta0 |-> theta0]))
+Emit == (pc = "run" /\ ((plan = <<>> /\ k = MaxSteps) \/ (plan # <<>> /\ k = Len(plan)))) =>
+   PrintT("SITE " \o ToJson([startSec |-> startSec, dt |-> dt, steps |-> k, lon |-> lon, theta0 |-> theta0,
+                             plan |-> plan, elapsed |-> clockSec]))
 
 Secs60      == 0..59
 DtsQuick    == {2, 7, 30, 60, 120, 300, 600, 900}
 DtsThorough == {2, 3, 7, 10, 30, 45, 60, 120, 300, 600, 900}
+\* step plans (property C11: "all step sizes and elapsed times up to days"): a first step to an
+\* elapsed time of 3 h / 2.5 d / 12 d followed by small steps; whole-day steps; mixtures
+NoPlan      == {<<>>}
+OneDt       == {1}
+LatePlans(Elapsed, Small) == {<<e, s, s, t>> : e \in Elapsed, s \in Small, t \in Small}
+DayPlans    == {<<86400, 86400, 86400>>, <<172800, 172800>>, <<86400, 172800, 86400, 2>>,
+                <<43200, 43200, 86400, 5>>}
+MixedPlans  == {<<3600, 3600, 86400, 86400, 2, 2>>, <<7, 86400, 7, 86393, 86400>>,
+                <<900, 85500, 86400, 10, 10>>}
+PlansQuick    == LatePlans({10800, 216000, 1036800}, {2, 10}) \cup DayPlans \cup MixedPlans
+PlansThorough == LatePlans({10800, 86400, 216000, 432000, 1036800}, {2, 3, 5, 10}) \cup DayPlans \cup MixedPlans
 LonsAll     == {0, 1, 21600, 43200, 64800, 86399}
 ThetasAll   == {0, 12345, 86399}
 =============================================================================
